@@ -196,6 +196,8 @@ class FaultRun(object):
                 self.setup_ops.append(workload.op_brief(op))
             return True
         rng = self.rng
+        if self.variant == 'big':
+            return self._setup_big(sim)
         if self.variant == 'tree':
             # provider forests: the request will move or remove a subtree
             self.gen = workload.Gen(
@@ -226,8 +228,214 @@ class FaultRun(object):
             self.model.adopt(dump.natural(w))
         return True
 
+    # -- requests that touch more than a hundred rows ---------------------
+    def _setup_big(self, sim):
+        from psim import scale
+        rng = self.rng
+        w = self.world
+        self.gen = workload.Gen(rng, n_providers=2, n_consumers=2)
+        n = rng.choice([101, 104, 130])
+        self.big_kind = kind = rng.choice(
+            ['consumers', 'consumers', 'reshape', 'traits', 'aggregates',
+             'tree', 'inventories'])
+        P, C, A = scale.P, scale.C, scale.A
+        ops = [{'m': 'POST', 'p': '/resource_providers', 'v': '1.39',
+                'b': {'name': 'big-1', 'uuid': P(1)}}]
+        v = self.big_v = rng.choice(['1.28', '1.36', '1.38', '1.39'])
+
+        def abody(c, rp, amount, gen=None):
+            b = {'project_id': 'proj-0', 'user_id': 'user-0',
+                 'consumer_generation': gen,
+                 'allocations': {rp: {'resources': {'VCPU': amount}}}
+                 if amount else {}}
+            if M.ver(v) >= (1, 38):
+                b['consumer_type'] = 'INSTANCE'
+            return b
+        self._abody = abody
+        if kind in ('consumers', 'reshape'):
+            ops.append({'m': 'PUT', 'v': '1.39',
+                        'p': '/resource_providers/%s/inventories' % P(1),
+                        'b': {'resource_provider_generation': 0,
+                              'inventories': {'VCPU': {'total': 4 * n}}}})
+            self.big_cons = [C(i) for i in range(n)]
+            ops.append({'m': 'POST', 'p': '/allocations', 'v': v,
+                        'b': {c: abody(c, P(1), 1) for c in self.big_cons}})
+        elif kind == 'traits':
+            self.big_traits = rng.sample(sorted(M.STD_TRAITS), n)
+            ops.append({'m': 'PUT', 'v': '1.39',
+                        'p': '/resource_providers/%s/traits' % P(1),
+                        'b': {'resource_provider_generation': 0,
+                              'traits': self.big_traits}})
+        elif kind == 'aggregates':
+            ops.append({'m': 'PUT', 'v': '1.39',
+                        'p': '/resource_providers/%s/aggregates' % P(1),
+                        'b': {'resource_provider_generation': 0,
+                              'aggregates': [A(i) for i in range(n)]}})
+        elif kind == 'tree':
+            ops.append({'m': 'POST', 'p': '/resource_providers', 'v': '1.39',
+                        'b': {'name': 'big-2', 'uuid': P(2)}})
+            members = [P(1)]
+            for i in range(n):
+                parent = P(1) if rng.random() < 0.6 else rng.choice(members)
+                ops.append({'m': 'POST', 'p': '/resource_providers',
+                            'v': '1.39',
+                            'b': {'name': 'big-c%d' % i, 'uuid': P(10 + i),
+                                  'parent_provider_uuid': parent}})
+                members.append(P(10 + i))
+        else:
+            self.big_rcs = ['CUSTOM_BIG_%03d' % i for i in range(n)]
+            for nm in self.big_rcs:
+                ops.append({'m': 'PUT', 'p': '/resource_classes/' + nm,
+                            'v': '1.39'})
+            ops.append({'m': 'PUT', 'v': '1.39',
+                        'p': '/resource_providers/%s/inventories' % P(1),
+                        'b': {'resource_provider_generation': 0,
+                              'inventories': {nm: {'total': 8}
+                                              for nm in self.big_rcs}}})
+        from psim import profiles
+        for op in ops:
+            op['kind'] = profiles._kind_of(op)
+            exp = self.model.apply(op)
+            r = self._do(sim, op).result
+            self.setup_ops.append(workload.op_brief(op))
+            if r.status != exp.status:
+                return False
+            if op['m'] != 'POST' or op['p'] != '/resource_providers' \
+                    or op is ops[-1]:
+                self.model.adopt(dump.natural(w))
+        self.model.adopt(dump.natural(w))
+        return True
+
+    def _request_big(self):
+        from psim import scale
+        from psim import profiles
+        rng = self.rng
+        m = self.model
+        P, A = scale.P, scale.A
+        kind = self.big_kind
+        v = self.big_v
+        g1 = m.providers[P(1)]['generation']
+        if kind == 'consumers':
+            amount = rng.choice([0, 2])
+            op = {'m': 'POST', 'p': '/allocations', 'v': v,
+                  'b': {c: self._abody(c, P(1), amount,
+                                       m.consumers[c]['generation'])
+                        for c in self.big_cons}}
+        elif kind == 'reshape':
+            # everything moves from the provider to a new child of it
+            child = P(2)
+            op0 = {'m': 'POST', 'p': '/resource_providers', 'v': '1.39',
+                   'b': {'name': 'big-child', 'uuid': child,
+                         'parent_provider_uuid': P(1)}}
+            op0['kind'] = 'rp_create'
+            self.model.apply(op0)
+            sim = seams.Sim(self.world, seed=self.seed, trace_sql=False)
+            self._do(sim, op0)
+            self.setup_ops.append(workload.op_brief(op0))
+            self.model.adopt(dump.natural(self.world))
+            total = m.inventories[(P(1), 'VCPU')]['total']
+            vv = rng.choice(['1.30', '1.34', '1.38', '1.39'])
+            allocs = {}
+            for c in self.big_cons:
+                b = {'project_id': 'proj-0', 'user_id': 'user-0',
+                     'consumer_generation': m.consumers[c]['generation'],
+                     'allocations': {child: {'resources': {'VCPU': 1}}}}
+                if M.ver(vv) >= (1, 38):
+                    b['consumer_type'] = 'INSTANCE'
+                allocs[c] = b
+            op = {'m': 'POST', 'p': '/reshaper', 'v': vv, 'b': {
+                'inventories': {
+                    P(1): {'resource_provider_generation':
+                           m.providers[P(1)]['generation'],
+                           'inventories': {}},
+                    child: {'resource_provider_generation': 0,
+                            'inventories': {'VCPU': {'total': total}}}},
+                'allocations': allocs}}
+        elif kind == 'traits':
+            if rng.random() < 0.3:
+                op = {'m': 'DELETE', 'v': '1.39',
+                      'p': '/resource_providers/%s/traits' % P(1)}
+            else:
+                keep = rng.sample(self.big_traits, rng.choice([0, 1, 50]))
+                op = {'m': 'PUT', 'v': '1.39',
+                      'p': '/resource_providers/%s/traits' % P(1),
+                      'b': {'resource_provider_generation': g1,
+                            'traits': keep}}
+        elif kind == 'aggregates':
+            op = {'m': 'PUT', 'v': '1.39',
+                  'p': '/resource_providers/%s/aggregates' % P(1),
+                  'b': {'resource_provider_generation': g1,
+                        'aggregates': [A(0), A(5000)]}}
+        elif kind == 'tree':
+            op = {'m': 'PUT', 'v': rng.choice(['1.37', '1.39']),
+                  'p': '/resource_providers/' + P(1),
+                  'b': {'name': 'big-1', 'parent_provider_uuid': P(2)}}
+            if rng.random() < 0.25:
+                # ... or the root of all of them goes away: refused
+                op = {'m': 'DELETE', 'v': '1.39',
+                      'p': '/resource_providers/' + P(1)}
+        else:
+            r = rng.random()
+            if r < 0.3:
+                op = {'m': 'DELETE', 'v': '1.39',
+                      'p': '/resource_providers/%s/inventories' % P(1)}
+            elif r < 0.6:
+                op = {'m': 'DELETE', 'v': '1.39',
+                      'p': '/resource_providers/' + P(1)}
+            else:
+                half = self.big_rcs[::2]
+                op = {'m': 'PUT', 'v': '1.39',
+                      'p': '/resource_providers/%s/inventories' % P(1),
+                      'b': {'resource_provider_generation': g1,
+                            'inventories': {nm: {'total': 9}
+                                            for nm in half}}}
+        op['kind'] = profiles._kind_of(op)
+        return op
+
+    def _big_plans(self, plans):
+        """Thousands of statements: keep the first few, the last dozen and
+        one point from each of 30 equal stretches of the request."""
+        rng = self.rng
+        by_ord = {}
+        for p in plans:
+            by_ord.setdefault(p[0][0], []).append(p)
+        ords = sorted(by_ord)
+        if len(ords) <= 60:
+            return plans
+        pick = set(ords[:4]) | set(ords[-12:])
+        n_b = 30
+        for b in range(n_b):
+            lo = len(ords) * b // n_b
+            hi = max(lo + 1, len(ords) * (b + 1) // n_b)
+            pick.add(ords[rng.randrange(lo, hi)])
+        # every commit point of a transaction that wrote something is kept
+        wrote = False
+        k = -1
+        for (tt, verb, table) in self.ops:
+            if tt in ('B', 'R'):
+                if tt == 'B' and verb == 'top':
+                    wrote = False
+                continue
+            k += 1
+            if tt == 'S' and verb in ('INSERT', 'UPDATE', 'DELETE'):
+                wrote = True
+            if tt == 'C' and wrote:
+                pick.add(k)
+        out = []
+        for o in sorted(pick):
+            cands = by_ord.get(o, [])
+            if not cands:
+                continue
+            if o in ords[-12:] or len(cands) == 1:
+                out.extend(cands)
+            else:
+                out.extend(rng.sample(cands, min(2, len(cands))))
+        return out
+
     def gen_request(self):
         g = self.gen
+        if self.variant == 'big':
+            return self._request_big()
         if self.variant == 'tree':
             g.invalid_rate = 0.0
             m = self.model
@@ -372,6 +580,8 @@ class FaultRun(object):
                     ['crash-before', 'crash-after']
             for kd in kinds:
                 plans.append([(k, kd)])
+        if self.variant == 'big':
+            plans = self._big_plans(plans)
         if self.max_points and len(plans) > self.max_points:
             # keep every point inside the must-retry windows, sample the rest
             must = [p for p in plans if p[0][0] in self.win_alloc or
